@@ -48,6 +48,49 @@ type Request struct {
 	Advance int `json:"advance,omitempty"`
 	// Payload > 0: the request is a POST with a body of this many bytes (else a GET without one)
 	Payload int `json:"payload,omitempty"`
+	// Blocks > 1 (scenario with Blockwise, reaction piggy or ack-sep): the response body comes in this
+	// many 16-byte blocks (RFC 7959) - the first one in the piggybacked or separate response, the others
+	// in piggybacked answers to the follow-up requests the client sends under the same token. A second
+	// feature next to retransmission: the retransmission rules are about the ORIGINAL request.
+	Blocks int `json:"blocks,omitempty"`
+}
+
+// respBody is the complete response body of request i (kind 'P' piggybacked, 'S' separate).
+func respBody(i int, kind byte, blocks int) []byte {
+	b := []byte(fmt.Sprintf("%c%d", kind, i))
+	if blocks > 1 {
+		for len(b) < 16*(blocks-1)+5 {
+			b = append(b, byte('a'+len(b)%23))
+		}
+	}
+	return b
+}
+
+// block2 is the Block2 option of block num (SZX 0 = 16 bytes) and that block of body.
+func block2(body []byte, num int) (refcodec.Opt, []byte) {
+	lo, hi := min(16*num, len(body)), min(16*num+16, len(body))
+	v := num << 4
+	if hi < len(body) {
+		v |= 8
+	}
+	var val []byte
+	for x := v; x > 0; x >>= 8 {
+		val = append([]byte{byte(x)}, val...)
+	}
+	return refcodec.Opt{Num: 23, Val: val}, body[lo:hi]
+}
+
+// followUp: the message asks for a later block of a response (Block2 with a block number > 0).
+func followUp(m refcodec.Msg) (int, bool) {
+	v, ok := peer.FindOpt(m, 23)
+	if !ok {
+		return 0, false
+	}
+	x := 0
+	for _, b := range v {
+		x = x<<8 | int(b)
+	}
+	return x >> 4, x>>4 > 0
 }
 
 type Scenario struct {
@@ -64,6 +107,9 @@ type Scenario struct {
 	BadFirst bool `json:"badFirst,omitempty"`
 	// Role: "" a client connection; "server" the connection a dtls.NewServer creates for an accepted peer
 	Role string `json:"role,omitempty"`
+	// Blockwise: the client has block-wise transfer enabled (SZX 1024, so that none of the request
+	// bodies here is split); responses may then come in blocks (Request.Blocks)
+	Blockwise bool `json:"blockwise,omitempty"`
 }
 
 type outcome struct {
@@ -87,6 +133,9 @@ func (badBody) Seek(int64, int) (int64, error) { return 0, fmt.Errorf("body not 
 
 func tok(i int) []byte { return []byte{0xC6, byte(i + 1)} }
 
+// traceOut, if set (TestTrace), gets the wire log and the outcomes of a scenario.
+var traceOut func(string)
+
 func Exec(t *testing.T, sc Scenario, r *evid.Run) *evid.Failure {
 	var failedWrites []time.Duration
 	badFirstAccepted := false
@@ -98,6 +147,7 @@ func Exec(t *testing.T, sc Scenario, r *evid.Run) *evid.Failure {
 	deliveredTo := make([][]delivered, n) // replies delivered to the client, per request
 	ackT := time.Duration(sc.AckTimeoutMs) * time.Millisecond
 	var errs endpoints.Errs
+	var lastBlockAt []time.Duration // when the answer to the last follow-up request of a response in blocks was delivered
 	res := bubble.Run(t, 60*time.Second, nil, func() {
 		link := memnet.NewPacketLink(memnet.LinkCfg{LatencyMs: 1})
 		if sc.FailWrite > 0 {
@@ -114,7 +164,7 @@ func Exec(t *testing.T, sc Scenario, r *evid.Run) *evid.Failure {
 			options.WithMessagePool(pool.New(8, 2048)),
 			options.WithPeriodicRunner(tk.Runner()),
 			options.WithErrors(errs.Add),
-			options.WithBlockwise(false, 6, time.Second),
+			options.WithBlockwise(sc.Blockwise, 6, 3*time.Second),
 			options.WithTransmission(uint32(sc.NStart), ackT, uint32(sc.MaxRetransmit)),
 			options.WithLimitClientParallelRequest(16),
 			options.WithLimitClientEndpointParallelRequest(16),
@@ -179,6 +229,7 @@ func Exec(t *testing.T, sc Scenario, r *evid.Run) *evid.Failure {
 		txCount := make([]int, n) // transmissions seen per request
 		replyCount := make([]int, n)
 		sepSent := make([]bool, n)
+		lastBlockAt = make([]time.Duration, n)
 		reply := func(i int, m refcodec.Msg, delay int) {
 			idx := replyCount[i]
 			replyCount[i]++
@@ -204,20 +255,45 @@ func Exec(t *testing.T, sc Scenario, r *evid.Run) *evid.Failure {
 				if i < 0 || i >= n {
 					continue
 				}
+				q := sc.Reqs[i]
+				if num, ok := followUp(m); ok {
+					// a follow-up request for a later block: answered at once, piggybacked
+					kind := byte('P')
+					if q.Reaction == "ack-sep" {
+						kind = 'S'
+					}
+					o, pl := block2(respBody(i, kind, q.Blocks), num)
+					if num == q.Blocks-1 {
+						mu.Lock()
+						lastBlockAt[i] = time.Since(start)
+						mu.Unlock()
+					}
+					link.A.Inject(peer.Datagram(refcodec.Msg{Type: peer.ACK, MID: m.MID, Token: m.Token, Code: 69, Opts: []refcodec.Opt{o}, Payload: pl}))
+					continue
+				}
 				k := txCount[i]
 				txCount[i]++
-				q := sc.Reqs[i]
 				if k < len(q.Loss) && q.Loss[k] {
 					continue
 				}
 				switch q.Reaction {
 				case "piggy":
-					reply(i, refcodec.Msg{Type: peer.ACK, MID: m.MID, Token: m.Token, Code: 69, Payload: []byte(fmt.Sprintf("P%d", i))}, q.DelayMs)
+					rm := refcodec.Msg{Type: peer.ACK, MID: m.MID, Token: m.Token, Code: 69, Payload: respBody(i, 'P', 0)}
+					if q.Blocks > 1 {
+						o, pl := block2(respBody(i, 'P', q.Blocks), 0)
+						rm.Opts, rm.Payload = []refcodec.Opt{o}, pl
+					}
+					reply(i, rm, q.DelayMs)
 				case "ack-sep":
 					reply(i, refcodec.Msg{Type: peer.ACK, MID: m.MID}, q.DelayMs)
 					if !sepSent[i] {
 						sepSent[i] = true
-						reply(i, refcodec.Msg{Type: q.SepType, MID: 30000 + i, Token: m.Token, Code: 69, Payload: []byte(fmt.Sprintf("S%d", i))}, q.DelayMs+q.SepDelayMs)
+						rm := refcodec.Msg{Type: q.SepType, MID: 30000 + i, Token: m.Token, Code: 69, Payload: respBody(i, 'S', 0)}
+						if q.Blocks > 1 {
+							o, pl := block2(respBody(i, 'S', q.Blocks), 0)
+							rm.Opts, rm.Payload = []refcodec.Opt{o}, pl
+						}
+						reply(i, rm, q.DelayMs+q.SepDelayMs)
 					}
 				case "rst":
 					reply(i, refcodec.Msg{Type: peer.RST, MID: m.MID}, q.DelayMs)
@@ -282,6 +358,15 @@ func Exec(t *testing.T, sc Scenario, r *evid.Run) *evid.Failure {
 			c()
 		}
 		wire = link.Log()
+		if traceOut != nil {
+			for _, rec := range wire {
+				m, _ := peer.ParseDatagram(rec.Data)
+				traceOut(fmt.Sprintf("%v dir=%d %s type=%d mid=%d code=%d tok=%x opts=%v payload=%q", rec.T, rec.Dir, rec.Fate, m.Type, m.MID, m.Code, m.Token, m.Opts, m.Payload))
+			}
+			mu.Lock()
+			traceOut(fmt.Sprintf("outcomes %+v errors %q", outs, errs.List()))
+			mu.Unlock()
+		}
 		failedWrites = link.A.FailedWrites()
 		_ = cli.Close()
 		stopRole()
@@ -310,6 +395,9 @@ func Exec(t *testing.T, sc Scenario, r *evid.Run) *evid.Failure {
 				return evid.Failf("retx/garbage-on-wire", sc, "the client sent an undecodable datagram %x", rec.Data)
 			}
 			if m.Type == peer.CON && (m.Code == 1 || m.Code == 2) && bytes.Equal(m.Token, tok(i)) {
+				if _, fu := followUp(m); fu {
+					continue // a request for a later block of the response, not a copy of the original
+				}
 				copies = append(copies, rec)
 			}
 		}
@@ -358,17 +446,42 @@ func Exec(t *testing.T, sc Scenario, r *evid.Run) *evid.Failure {
 				resp = &deliveredTo[i][k]
 			}
 		}
+		// "re-sent only while it is unacknowledged": a response implies that the peer has the request
+		// (RFC 7252 5.2.2 - it also serves as the acknowledgement, which may have been lost or may
+		// still be on its way). Asserted from the moment the COMPLETE response has been delivered - for
+		// a body in several blocks that is the answer to the last follow-up request; until then the
+		// library keeps the original pending.
+		if resp != nil && !wrapped(sc) {
+			done := resp.t
+			if q.Blocks > 1 {
+				done = lastBlockAt[i]
+			}
+			for k, c := range copies {
+				if done > 0 && c.T > done+time.Millisecond {
+					return evid.Failf("retx/copy-after-response", sc, "request %d: transmission %d at %v although the complete response to it had been delivered at %v (the response also stands for the acknowledgement)", i, k, c.T, done)
+				}
+			}
+		}
 		if o.err == nil {
 			if resp == nil {
 				return evid.Failf("retx/success-without-response", sc, "request %d returned success (code %d, %q) although no response was ever delivered (reaction %s)", i, o.code, o.payload, q.Reaction)
 			}
-			if !bytes.Equal(o.payload, resp.m.Payload) || o.code != resp.m.Code {
+			want := resp.m.Payload
+			if q.Blocks > 1 {
+				want = respBody(i, want[0], q.Blocks)
+			}
+			if !bytes.Equal(o.payload, want) || o.code != resp.m.Code {
 				return evid.Failf("retx/wrong-response", sc, "request %d returned %d %q, the peer's response was %d %q", i, o.code, o.payload, resp.m.Code, resp.m.Payload)
 			}
 			continue
 		}
 		// the call failed: was it entitled to? Conservative "got back before exhaustion":
 		if resp == nil {
+			continue
+		}
+		if q.Blocks > 1 {
+			// the first block got back; whether the others could be fetched in time (the follow-up
+			// requests wait for NSTART like any other) is not decided by the rules about the original
 			continue
 		}
 		if wrapped(sc) && resp.t > o.at && strings.Contains(o.err.Error(), "connection was closed") {
@@ -501,6 +614,7 @@ func gen(t *rapid.T) Scenario {
 		sc.Role = "server"
 	}
 	sc.BadFirst = rapid.IntRange(0, 5).Draw(t, "badfirst") == 0
+	sc.Blockwise = rapid.IntRange(0, 3).Draw(t, "blockwise") == 0
 	ack := sc.AckTimeoutMs
 	n := rapid.SampledFrom([]int{1, 1, 1, 2, 3}).Draw(t, "nreq")
 	for i := 0; i < n; i++ {
@@ -514,6 +628,9 @@ func gen(t *rapid.T) Scenario {
 		}
 		if rapid.IntRange(0, 2).Draw(t, "post") == 0 {
 			q.Payload = rapid.SampledFrom([]int{1, 9, 200}).Draw(t, "payload")
+		}
+		if sc.Blockwise && (q.Reaction == "piggy" || q.Reaction == "ack-sep") && rapid.IntRange(0, 2).Draw(t, "blocksq") > 0 {
+			q.Blocks = rapid.IntRange(2, 3).Draw(t, "blocks")
 		}
 		q.DeadlineMs = rapid.SampledFrom([]int{ack / 2, 2 * ack, (sc.MaxRetransmit + 3) * ack, (sc.MaxRetransmit + 8) * ack}).Draw(t, "deadline")
 		if q.DeadlineMs < 10 {
